@@ -26,7 +26,8 @@ CHECKS = {'C14': {'level': 'exploration',
                          'indexing (assumption, not proof); matrices with more columns / rows beyond {1,2,3,7} are '
                          'not covered',
                          'thorough triples: the third column is restricted to all 8 patterns x magnitudes '
-                         '{1, 1e-6, 1e6} x sign + (24 of 80 columns), the first two range over all 80',
+                         '{1, 1e-6, 1e6} x sign + (24 of 80 columns), the first two range over all 80, and 3 of the 5 '
+                         'target specifications are used (one target, two targets, categorical target)',
                          'target columns cannot be missing (the datasource rejects optional targets), so the targets '
                          'side uses the 4 NaN-free patterns only; the side that is not enumerated completely uses a '
                          'stated thin list (5 target specifications / 3 input specifications)',
@@ -37,7 +38,7 @@ CHECKS = {'C14': {'level': 'exploration',
                          'model equivalence is evaluated on every data row without missing values plus one synthetic '
                          'finite probe row outside the data range; tolerance 64*eps*sum|terms| with the term '
                          'magnitudes computed from the statistics the library reports'],
-         'deadline': {'quick': 240, 'thorough': 1200},
+         'deadline': {'quick': 400, 'thorough': 1800},
          'stages': [{'name': 'inputs',
                      'harness': 'c14_scaling',
                      'args': ['--stage', 'inputs'],
